@@ -180,13 +180,32 @@ def symbol_lookup(chk, fx):
     cg = Canon(g)
     gc, gn = PS.event_conditions(cg, g.body, unroll=1, drop=_drop_noise)
     rt = gc.get(("return", "true"))
+    # `return <bool expression>;` returns true exactly where the path condition and the expression hold
+    for (k, t), c in list(gc.items()):
+        if k != "return" or t in ("true", "false"):
+            continue
+        val = (gn[(k, t)].get("value") if gn.get((k, t)) is not None else None)
+        if val is None:
+            chk.incomplete("str_equal: return of %s cannot be read as a condition" % t)
+            continue
+        extra = PS.signed_atoms(cg, val, True)
+        more = set()
+        for conj in c:
+            for x in extra:
+                cj = frozenset(set(conj) | {(a, pol) for a, pol in x if not _drop_noise(a)})
+                if PS._consistent(cj):
+                    more.add(cj)
+        if more:
+            rt = (rt or set()) | more
     EQ = "(*$0 == *$1)"
     if rt is None:
         chk.violation("REJ-2", A.site(g), "REJ-2:str_equal:never-true", "str_equal never returns true")
     else:
         # every way of returning true has compared the current characters equal and seen the terminator of one of them
-        ok_true = all(any(a == EQ and pol for a, pol in conj) and
-                      any(re.fullmatch(r"\(\*\$[01] == 0\)", a) and pol for a, pol in conj) for conj in rt)
+        # (or has seen the terminator of both, which is the same thing)
+        ok_true = all((any(a == EQ and pol for a, pol in conj) and
+                       any(re.fullmatch(r"\(\*\$[01] == 0\)", a) and pol for a, pol in conj)) or
+                      (("(*$0 == 0)", True) in conj and ("(*$1 == 0)", True) in conj) for conj in rt)
         if ok_true:
             chk.ok("REJ-2", A.site(g), "str_equal says 'equal' only where both strings have the same character and that "
                                        "character is the terminator")
